@@ -33,10 +33,34 @@ class UnitSplit:
                 return t[2][0], f"outlier:{t[2][1][1]}", f"flagged by the outlier model on {t[2][1][1]}"
             return None
 
-        self.rs = rs.RowSets({DATA: "inData", CUR: "inFeed", PRE: "inBaseline"}, opaque)
+        self.never_missing = self._never_missing()
+        self.rs = rs.RowSets({DATA: "inData", CUR: "inFeed", PRE: "inBaseline"}, opaque, never_missing=self.never_missing)
         self.fR = self.rs.member(self.R)
         self.fN = self.rs.member(self.N)
         self.fU = self.rs.member(self.U)
+
+    def _never_missing(self):
+        """Columns of self.data that cannot hold a missing value, established from the code on every run: `turnout_factor` when
+        the constructor stores the frame returned by Estimandizer.add_turnout_factor and that method defines the column as
+        nan_to_num(.., nan=<number>). (percent_expected_vote comes from the feed through a LEFT join: it CAN be missing.)"""
+        ctx = self.ctx
+        out = set()
+        try:
+            ini = ctx.fn(CD, "CombinedDataHandler.__init__")
+            tf = ctx.fn("elexmodel.handlers.data.Estimandizer", "Estimandizer.add_turnout_factor")
+            b = ctx.builder()
+            dw = [w for w in b.summarize(ini).attr_writes if w[1] == "data"]
+            through = bool(dw) and any(x[0] == "call" and x[1][0] == "attr" and x[1][2] == "add_turnout_factor" for x in ir.walk(dw[-1][2]))
+            from .frames import Frames
+            val = Frames(b).col(b.summarize(tf).ret(), ("const", "turnout_factor"))
+            nan = dict(val[3]).get("nan", ("const", 0.0)) if val[0] == "call" else None
+            guarded = (val[0] == "call" and ir.show(val[1]).endswith("nan_to_num") and nan is not None and nan[0] == "const"
+                       and isinstance(nan[1], (int, float)) and nan[1] == nan[1])
+            if through and guarded:
+                out.add("turnout_factor")
+        except AnalysisError:
+            pass
+        return frozenset(out)
 
     # the non-modelled concat and its items ------------------------------------------------------
     def nonmodelled(self):
